@@ -279,12 +279,18 @@ class ModelsOps:
                 t = self.truth(other, node)
                 return BoolV((not t) if sym == "==" else t)
             return OpaqueV("strcmp")
+        if isinstance(l, EnumV) and isinstance(r, EnumV) and getattr(l, "origin", None) == "default" and \
+                getattr(r, "origin", None) == "default" and sym in ("==", "!=") and \
+                (l.member is None or r.member is None or getattr(l, "epoch", 0) != getattr(r, "epoch", 0)):
+            # the default mode of one ambient state is one mode; that of another state is taken to be another one
+            same = getattr(l, "epoch", 0) == getattr(r, "epoch", 0)
+            return BoolV(same if sym == "==" else not same)
         if isinstance(l, EnumV) or isinstance(r, EnumV):
             for e in (l, r):
                 if isinstance(e, EnumV) and e.member is None:
                     from .tables import rounding_modes_from_dependency
                     ms = rounding_modes_from_dependency()
-                    e.member = ms[I.choose(len(ms), "default-rounding-mode", ms)]
+                    e.member = ms[I.choose(len(ms), f"default-rounding-mode{('@' + str(getattr(e, 'epoch', 0))) if getattr(e, 'epoch', 0) else ''}", ms)]
             if isinstance(l, EnumV) and isinstance(r, EnumV):
                 res = l.member == r.member
                 return BoolV(res if sym == "==" else not res)
@@ -1095,8 +1101,8 @@ class ModelsOps:
                 rf = self.st.norm(v.rf)
                 if rf.is_const() and rf.const_value().denominator == 1:
                     return Num(rf, "int")
-                if self.st.integer_valued(rf):
-                    return Num(rf, "int")       # int() of an integer-valued expression is the identity
+                if v.kind == "int" or self.st.integer_valued(rf):
+                    return Num(rf, "int")       # int() of an integer / an integer-valued expression is the identity
                 self.flag("int-truncation", node, "int() of a non-integral number")
                 return Num(self.ufn("int", v.rf), "int")
             if isinstance(v, StrV):
@@ -1528,6 +1534,7 @@ class ModelsOps:
                 return e
             e = EnumV("ROUNDING", None)
             e.origin = "default"
+            e.epoch = self.st.epoch
             return e
         if name.startswith("operator."):
             opn = name.split(".")[1]
@@ -2170,11 +2177,15 @@ class ModelsOps:
         o = opts[c]
         dflt = args[0] if args else Num(RF.const(1), "dec")
         if o == "empty-remainder":
+            # the dimensions cancel: no unit is or will ever be registered for this term
+            self.st.never_found.add((self.st.norm(t.mag).key(),
+                                     tuple(sorted((self.st.tfind(k_), e_) for k_, e_ in self.norm_dims(t.dims).items()
+                                                  if e_ != (0, 0)))))
             rest = TermV(RF.const(1), {}, items=[], normalized=True)
             rest.empty = True
             return TupleV([Num(t.mag, "exact"), rest])
         if o == "numeric+remainder":
-            nu = RF.atom(("nu", self.st.fresh("nu")))
+            nu = RF.atom(("nu", self.st.fresh_keyed("nu", (self.st.norm(t.mag).key(), tuple(sorted(self.norm_dims(t.dims).items()))))))
             rest = TermV(t.mag / nu, dict(t.dims), normalized=True, origin=("split", id(t)))
             rest.empty = False
             return TupleV([Num(nu, "exact"), rest])
@@ -2329,7 +2340,8 @@ class ModelsOps:
                 ex = ExcV("ValueError", (), node, self.where(node))
                 ex.tag = "rate-validation"
                 raise AbsRaise(ex)
-        m = RF.atom(("pw10", st.fresh("m")))
+        # the normalising power of ten is a function of the given amount and multiple
+        m = RF.atom(("pw10", st.fresh_keyed("m", (st.norm(um_in.rf).key(), st.norm(ta_in.rf).key()))))
         ta = st.rnd(6, ta_in.rf * m / um_in.rf)
         r = RateV(uc, tc, Num(m, "dec"), Num(ta, "dec"), name=st.fresh("rate"))
         r.fresh = True
